@@ -128,6 +128,50 @@ func checkOne(c *mc.Ctx, box orb.Bound, in orb.LineString, open bool) {
 	if !sameBits(before, bits(in)) {
 		c.Failf("input-modified", "the input line was modified | %s", desc())
 	}
+	// the same problem translated far from the origin (exact in float64) must clip to the translated pieces:
+	// same pieces, vertices within 1e-7 (honest interpolation is off by ~2e-10 there, cancelling formulas by ~1e-4)
+	{
+		const tx, ty = 1048576, -1048573
+		sb := orb.Bound{Min: orb.Point{box.Min[0] + tx, box.Min[1] + ty}, Max: orb.Point{box.Max[0] + tx, box.Max[1] + ty}}
+		sl := make(orb.LineString, len(in))
+		for i, p := range in {
+			sl[i] = orb.Point{p[0] + tx, p[1] + ty}
+		}
+		if in == nil {
+			sl = nil
+		}
+		var gs orb.MultiLineString
+		if open {
+			gs = clip.LineString(sb, sl, clip.OpenBound(true))
+		} else {
+			gs = clip.LineString(sb, sl)
+		}
+		// compare the non-degenerate segments in order (a touch at a corner may or may not leave a zero-length piece)
+		segs := func(m orb.MultiLineString, dx, dy float64) [][4]float64 {
+			var out [][4]float64
+			for _, l := range m {
+				for j := 1; j < len(l); j++ {
+					a, b := l[j-1], l[j]
+					if math.Hypot(a[0]-b[0], a[1]-b[1]) > 1e-6 {
+						out = append(out, [4]float64{a[0] - dx, a[1] - dy, b[0] - dx, b[1] - dy})
+					}
+				}
+			}
+			return out
+		}
+		s1, s2 := segs(got, 0, 0), segs(gs, tx, ty)
+		same := len(s1) == len(s2)
+		for i := 0; same && i < len(s1); i++ {
+			for k := 0; k < 4; k++ {
+				if math.Abs(s1[i][k]-s2[i][k]) > 1e-7 {
+					same = false
+				}
+			}
+		}
+		if !same {
+			c.Failf("translation", "translated by (2^20, -2^20+3) the line clips to %v | %s", gs, desc())
+		}
+	}
 	// the same line with spare capacity behind it must clip to the same pieces, and nothing may be written there
 	sp := orb.LineString(refgeom.Spare(in))
 	var got2 orb.MultiLineString
